@@ -511,7 +511,6 @@ Proof.
   destruct Hst as [|st Hst]; cbn [app]; ev; rewrite E; unfold finish; ev; cbv zeta; unfold call_result, chosen_max, chosen_lines, chosen_cursor, chosen_entry, chosen_font; cbn [upd p_init pFont pFontTok pMax pLines pCursor]; destruct (wFont w); reflexivity.
 Qed.
 End CALL.
-Print Assumptions parse_format_call.
 
 (* ====================================================================================================== *)
 (* PART 6 - the chosen parameters, read off (a) (b) (c) (d)                                                 *)
@@ -604,7 +603,6 @@ Proof.
   split; [apply chosen_cursor_written|apply chosen_cursor_config].
 Qed.
 End CHOICE.
-Print Assumptions chosen_parameters_spec.
 
 (* ====================================================================================================== *)
 (* PART 7 - known / unknown font id, lint mode; (e) only the chosen font's config entry matters            *)
@@ -745,12 +743,6 @@ Proof.
   unfold call_result, chosen_max, chosen_lines, chosen_cursor, chosen_entry. rewrite F.
   rewrite (font_of_ext fc fc' _ S), (format_text_ext fc fc' _ S). reflexivity.
 Qed.
-Print Assumptions parse_format_call.
-Print Assumptions parse_format_usable_font.
-Print Assumptions parse_format_unknown_font.
-Print Assumptions parse_format_unknown_font_lint.
-Print Assumptions parse_format_lint_same.
-Print Assumptions parse_format_reads_only_the_chosen_font.
 
 (* ====================================================================================================== *)
 (* PART 8 - a concrete call (tokens produced by the model's lexer); the precedence of (b) as asked is FALSE *)
@@ -1057,7 +1049,6 @@ Proof.
       intros c0; eapply NL_item; try eassumption; apply NL_end; assumption].
     cbv beta iota. cbn [negb]. apply finish_no_rparen. assumption.
 Qed.
-Print Assumptions format_error_located.
 
 (* ====================================================================================================== *)
 (* PART 10 - the grammar and the catalogue are EXHAUSTIVE: every token stream that starts with `format` (and ends with
@@ -1299,7 +1290,6 @@ Proof.
   - right. exists (fmt :: lp :: [] ++ [y]), r2. eexists. split; [reflexivity|].
     apply (E_string fmt lp [] [] y Hlp ST_none Hy2). intros _. exact Hy1.
 Qed.
-Print Assumptions format_call_or_error.
 
 (* the two theorems together: on every such stream parse_format returns either the result of a call of the grammar or the
    located error of the catalogue - never Panic, never Fuel *)
@@ -1313,7 +1303,6 @@ Proof.
   - left. exists l, R, rp, ttok, sty, w. split; [exact E|]. split; [exact H|]. rewrite E. apply parse_format_call. exact H.
   - right. exists l, R, e. split; [exact E|]. split; [exact H|]. rewrite E. apply format_error_located. exact H.
 Qed.
-Print Assumptions parse_format_characterised.
 
 (* CONVERSE of parse_format_call: whatever parse_format accepts is a call of the grammar, it has consumed exactly the tokens
    of the call, and the text is format_text with the chosen parameters (or empty: unknown font in lint mode) *)
@@ -1334,7 +1323,6 @@ Proof.
   - destruct ee; [discriminate H|]. inversion H; subst. exists l, R, rp, w. split; [reflexivity|]. split; [exact Hc|].
     split; [reflexivity|]. right. split; [reflexivity|]. split; [|reflexivity]. apply format_text_none_iff in F. exact F.
 Qed.
-Print Assumptions parse_format_ok_inv.
 
 (* every error of parse_format is one of the catalogue, or the unknown-font error of a complete call *)
 Theorem parse_format_err_inv fc cli_font cli_maxlen ee ts e :
@@ -1353,7 +1341,6 @@ Proof.
     split; [apply format_text_none_iff in F; exact F|]. rewrite err_tok_perr in H. inversion H. reflexivity.
   - left. exists l, R. split; [exact E|]. rewrite P in H. inversion H. subst. exact He.
 Qed.
-Print Assumptions parse_format_err_inv.
 
 Theorem parse_format_no_panic_no_fuel fc cli_font cli_maxlen ee ts :
   eof_ended ts -> ttype (cur ts) = FORMAT ->
@@ -1365,7 +1352,6 @@ Proof.
   - unfold call_result. destruct (format_text _ _ _ _ _ _); [split; discriminate|]. destruct ee; split; discriminate.
   - split; discriminate.
 Qed.
-Print Assumptions parse_format_no_panic_no_fuel.
 
 (* ====================================================================================================== *)
 (* PART 11 - joined with the theorems on format_text (Properties_C07): the lines of an accepted call fit the box of the
@@ -1395,7 +1381,6 @@ Proof.
   destruct (FormatWords.format_text_from_source fc (tlit ttok) maxW cursor id numLines out F) as (ls & E & A & B & _).
   exists out, ls. split; [exact P|]. split; [exact E|]. split; [exact A|exact B].
 Qed.
-Print Assumptions format_call_lines_fit.
 
 (* ====================================================================================================== *)
 (* PART 12 - further concrete inputs: hypotheses of the error theorems are satisfiable; quirks of the grammar *)
@@ -1571,8 +1556,6 @@ Proof.
   { inversion E3; subst. congruence. }
   inversion E3 as [[Ea E4]]. subst a. eapply IH; [exact E4|exact Ht].
 Qed.
-Print Assumptions named_seq_written.
-Print Assumptions named_seq_unwritten.
 
 (* the same at the level of the parameter list of a call: a `name = value` anywhere in it is what the call writes for that name
    (in particular a named maxLineLength= / fontId= after the positional parameters overrides the second positional one) *)
@@ -1610,7 +1593,6 @@ Proof.
     destruct (split_after_non_ident [c] ln l1 id _ F Hid E) as (l1' & _ & E2).
     eapply named_seq_written; [exact Hn|exact E2|exact Hid].
 Qed.
-Print Assumptions params_named_value.
 
 Lemma named_seq_spec_origin spec w ln spec' w' :
   named_seq spec w ln spec' w' -> forall x, In x spec' -> In x spec \/ exists id, In id ln /\ ttype id = IDENT /\ tlit id = x.
@@ -1642,7 +1624,6 @@ Proof.
     destruct (named_seq_spec_origin _ _ _ _ _ Hs name I') as [[]|(id & I2 & T & E)].
     apply (Hno id); [|exact T|exact E]. right. exact I2.
 Qed.
-Print Assumptions params_unnamed_field.
 
 (* the hypotheses of PART 10 hold of the lexed example inputs *)
 Module Ex3.
